@@ -311,6 +311,7 @@ fn pair_case(cfg: &Cfg, case: u64, rng: &mut Rng, rep: &mut Report, p: &Pair, w:
         rep.count("pairs_by_modulus_bits", &format!("bits={:02}", bits));
         rep.count("pairs_by_degree_x_bits", &format!("N={:05},bits={:02}", n, bits));
         rep.count("pairs_by_modulus_source", p.src);
+        rep.count("pairs_by_degree_x_source", &format!("N={:05},{}", n, p.src));
         rep.min("modulus", q as f64); rep.max("modulus", q as f64);
         if !primitive {
             rep.violation(&cx.sig(E_ROOT, "-", "not_primitive"), format!("N={} q={}: root() = {} but root^N mod q = {} (expected q-1)", n, q, psi, if psi < q { refm::powmod(psi, n as u64, q) } else { 0 }), cx.replay(json!({"entry": E_ROOT})));
@@ -802,7 +803,7 @@ pub fn run(cfg: &Cfg, rep: &mut Report) -> PropMeta {
 
     PropMeta {
         id: "C09", level: "exploration",
-        rule: "degrees N = 2..2^11 (quick) / 2..2^13 (thorough) x moduli {every prime = 1 mod 2N below 2^12; the primes get_primes(2N, bits, k) yields for every bit size 2..61 where any exist (k = 3 quick / 5 thorough, 61 bits: 6 / 8); 2 seed-dependent random friendly primes per bit size}. Per (N,q): root checks (psi^N = -1, psi = brute-force minimal primitive 2N-th root, three independently constructed tables - one on another thread - word-identical, one more in a second process); ALL N unit vectors through forward strict, forward lazy (scaled by 1, q-1, 4q-1, random psi^d + kq < 4q), inverse strict, inverse lazy (scaled by 1, q-1, 2q-1, random < 2q) against the column formula; dense vectors (random, all(q-1), lazy maxima all(4q-1) / all(2q-1), boundary mixes) against the O(N^2) definition, both round trips; dyadic product of transforms vs schoolbook negacyclic product (N <= 512 quick / 2048 thorough; sparse x dense and the closed form of (sum X^i)^2 above); negacyclic_shift for EVERY s in 0..2N-1. The sub-space {N <= 512, q < 4096} x unit vectors x shifts is enumerated completely. evaluations = vectors/shifts checked; distinct = (N, modulus bits, vector kind) classes",
+        rule: "degrees N = 2..2^11 (quick) / 2..2^13 (thorough) x moduli {every prime = 1 mod 2N below 2^12; the primes get_primes(2N, bits, k) yields for every bit size 2..61 where any exist (k = 3 quick / 5 thorough, 61 bits: 6 / 8); 2 seed-dependent random friendly primes per bit size}. Per (N,q): root checks (psi^N = -1, psi = brute-force minimal primitive 2N-th root, three independently constructed tables - one on another thread - word-identical, one more in a second process); ALL N unit vectors through forward strict, forward lazy (scaled by 1, q-1, 4q-1, random psi^d + kq < 4q), inverse strict, inverse lazy (scaled by 1, q-1, 2q-1, random < 2q) against the column formula; dense vectors (random, all(q-1), lazy maxima all(4q-1) / all(2q-1), boundary mixes) against the O(N^2) definition, both round trips; dyadic product of transforms vs schoolbook negacyclic product (N <= 512 quick / 2048 thorough; sparse x dense and the closed form of (sum X^i)^2 above); negacyclic_shift for EVERY s in 0..2N-1. For every N the sub-space {all primes q < 4096 with q = 1 mod 2N (they exist for N <= 128)} x all unit vectors x all shifts is enumerated completely. evaluations = vectors/shifts checked; distinct = (N, modulus bits, vector kind) classes",
         assumptions: vec![
             "u128 arithmetic of rustc; refm (Miller-Rabin with the 12 fixed bases is deterministic below 2^64)".into(),
             "documented lazy ranges: forward [0,4q) -> [0,4q) (rns.rs:725-732, ntt.rs:161-162); inverse [0,2q) -> [0,2q) (butterfly invariant of transform_from_rev, callers in evaluator.rs:1296-1304). Inverse-lazy inputs in [2q,4q) are probed but counted out of precondition".into(),
